@@ -97,6 +97,7 @@ func (e *Enc) encodeCall(fr *frame, st *bstate, res ssa.Value, call *ssa.CallCom
 			e.monitorInv(fr, st, call.Args[0], true, pos)
 		}
 		e.curCallArgs = ssaArgs
+		e.curBindings = bindings
 		rv := e.applyContract(fr, st, c, callee, nil, args, resType, pos)
 		if funcKey(callee) == "sync#(*Mutex).Lock" && len(call.Args) == 1 {
 			e.afterLock(st, call.Args[0])
@@ -325,6 +326,9 @@ func packResults(rs []Val, resType types.Type) Val {
 // applyContract: assert pre, havoc frame, assume post.
 // Exactly one of callee / method is non-nil.
 func (e *Enc) applyContract(fr *frame, st *bstate, c *Contract, callee *ssa.Function, method *types.Func, args []Val, resType types.Type, pos token.Pos) Val {
+	bindings := e.curBindings
+	spawn := e.spawning
+	e.curBindings, e.spawning = nil, false
 	defer func() { e.curCallArgs = nil }()
 	if c.Trusted {
 		e.externs[c.Key] = true
@@ -350,6 +354,21 @@ func (e *Enc) applyContract(fr *frame, st *bstate, c *Contract, callee *ssa.Func
 		}
 		if i < len(args) {
 			params[fmt.Sprintf("arg%d", i)] = args[i]
+		}
+	}
+	// a closure's contract may name its free variables: they denote the captured variables' values
+	if callee != nil {
+		for i, fv := range callee.FreeVars {
+			if i >= len(bindings) || fv.Name() == "" {
+				continue
+			}
+			b := bindings[i]
+			if pt, ok := fv.Type().(*types.Pointer); ok && b.Loc == nil && e.W.structInfo(pt.Elem()) == nil {
+				b = Val{Loc: &Loc{Comp: e.W.cellComp(pt.Elem()), Idx: []string{b.T}, Typ: pt.Elem()}, Typ: pt.Elem()}
+			}
+			if _, dup := params[fv.Name()]; !dup {
+				params[fv.Name()] = b
+			}
 		}
 	}
 	pre := &bstate{reach: st.reach, heap: copyHeap(st.heap)}
@@ -459,6 +478,9 @@ func (e *Enc) applyContract(fr *frame, st *bstate, c *Contract, callee *ssa.Func
 		e.assumeAllocated(st, r)
 	}
 	for _, cl := range c.Ensures {
+		if spawn {
+			break // a spawned goroutine need not have finished: only its frame is known
+		}
 		if cl.Assumed {
 			e.externs[c.Key+" (assumed postcondition: "+cl.Text+")"] = true
 		}
